@@ -452,13 +452,13 @@ ASSUMPTIONS = ['inputs are 1-D integer/float numpy arrays (ndim/dtype.kind rejec
                'assemble_coo: nrows >= 0, ncols >= 0 (shape entries)',
                "Matrix.rowsupp: class invariant of export('coo'): data/row/col equally long, 0 <= row[k] < shape[0]; float (not complex) data; tol a float (any IEEE value) or the default 0",
                'assemble_block_csr: at least one block row, every block row has at least one block; every block is well-formed CSR (WF) with ncols >= 0; block values are float '
-               'arrays (one scenario with an int block for the dtype assertion); the grid shape is fixed per scenario: 1x1, 1x2, 1x3, 2x1, 3x1',
+               'arrays (one scenario with an int block for the dtype assertion); the grid shape is fixed per scenario: 1x1, 1x2, 1x3, 2x1, 3x1, 2x2',
                'Matrix.__rmul__/__truediv__: the scalar is a real number (exact arithmetic: 1/other is the exact inverse; float rounding of the quotient is not modelled)',
                "Matrix.__reduce__: class invariant of export('csr'): the exported (data, indices, indptr) is well-formed CSR for shape (this is what assemble_csr established when the matrix was built; "
                'backend arithmetic preserving it is not covered)']
 NOT_COVERED = ['scipy and MKL backends (native code)', 'matrix arithmetic inside the backends (__add__/__mul__/__neg__ are abstract in the base class; the base-class __sub__/__rmul__/__truediv__ only delegate), transpose, export, submatrix; values after a pickle ROUND TRIP through a backend (only the reconstruction call is covered)',
                'values of the assembled matrix inside the backend (matrix/_numpy:assemble and NumpyMatrix.export/_submatrix/T need a 2-D array model; not attempted)',
-               'assemble_block_csr on grids other than 1x1, 1x2, 1x3, 2x1, 3x1 (2x2 is written, contracts/blockcsr.py UNFINISHED_GRIDS, see notes/C15-c15b.md); any number of block rows / blocks per row '
+               'assemble_block_csr on grids other than 1x1, 1x2, 1x3, 2x1, 3x1, 2x2 (rows with different numbers of blocks, larger grids); any number of block rows / blocks per row '
                '(an outer loop invariant) is not attempted; '
                'complex or mixed-dtype blocks (numpy casting rules)',
                'complex data in rowsupp']
